@@ -27,6 +27,8 @@ type ProgSpec struct {
 	Tags           []string `json:"tags_used"`
 	// NoGlobals: the set is created without any Globals
 	NoGlobals bool `json:"no_globals,omitempty"`
+	// DebugSet: the set's Debug flag is on (single-task checks only)
+	DebugSet bool `json:"debug_set,omitempty"`
 	// TwoLoaders: the set has a stack of two loaders (see progDisk)
 	TwoLoaders bool `json:"two_loaders,omitempty"`
 	// ExportsXM: main.tpl defines the exported macro xm (a context key "xm" is then rejected)
@@ -607,6 +609,7 @@ func GenProgramOpt(g *Tape, size int, allowMut bool) *ProgSpec {
 			return
 		}
 		sp.NoGlobals = g.Draw(4) == 0
+		sp.DebugSet = g.Draw(4) == 0
 	}()
 	// swarm: switch a random third of the constructs off
 	for _, c := range allConstructs {
